@@ -362,7 +362,7 @@ package rules
 //@   ensures tfind.ret1[old(tfind.n)] != nil && r.dr != nil ==> ret1 == nil && ret0 == iface(r.dr)
 //@   ensures tfind.ret1[old(tfind.n)] != nil && r.dr == nil ==> ret0 == nil && ret1 != nil && Is(ret1, heimdall.ErrNoRuleFound)
 //@   ensures tfind.ret1[old(tfind.n)] == nil ==> ret1 == nil
-//@   assert at call Find#1: callarg1 == normUnreserved(ite(len(req.ret0[req.n - 1].URL.URL.RawPath) != 0, req.ret0[req.n - 1].URL.URL.RawPath, req.ret0[req.n - 1].URL.URL.Path))
+//@   assert at call Find#1@950e34fc.1: callarg1 == normUnreserved(ite(len(req.ret0[req.n - 1].URL.URL.RawPath) != 0, req.ret0[req.n - 1].URL.URL.RawPath, req.ret0[req.n - 1].URL.URL.Path))
 //@   assert at store Captures#1@bd941b9d.1: stored == tfind.ret0[tfind.n - 1].Parameters
 //@   ensures mrunlock.n == old(mrunlock.n) + 1 && mrlock.n == old(mrlock.n) + 1
 //@   assert at call Find#1@950e34fc.1: callarg0 == r.index && mrlock.n == old(mrlock.n) + 1 && mrlock.arg0[old(mrlock.n)] == &r.rulesTreeMutex && mrunlock.n == old(mrunlock.n)
